@@ -6,6 +6,7 @@ From SF Require Import Base.Prelude Gen.Generated Unsized.Types Unsized.Parse Un
 From SF Require Import Unsized.Proofs.EncodeParse Unsized.Proofs.Mem Unsized.Proofs.Notify Unsized.Proofs.Flat Unsized.Proofs.Layout
   Unsized.Proofs.Observe Unsized.Proofs.Table Unsized.Proofs.Path Unsized.Proofs.Context Unsized.Proofs.Context2 Unsized.Proofs.Focus
   Unsized.Proofs.Pos Unsized.Proofs.FocusOps Unsized.Proofs.NotifyInside Unsized.Proofs.Resize Unsized.Proofs.GenOps.
+From SF Require Import Unsized.Proofs.EnumFacts.
 
 Arguments Z.add : simpl never.
 Arguments Z.sub : simpl never.
@@ -32,17 +33,33 @@ Fixpoint menter (ovf : bool) (t : ty) (s : mach) (top : ptr) (ps : list pos) (pi
           end
       | _, _ => Panic
       end
+  | SV :: r => menter ovf t s top (ps ++ [PV]) r      (* the live variant's payload: static *)
   end.
 
 Lemma resolve_app : forall p r t v X xv, resolve t v (p ++ r) = Some (X, xv) ->
   exists tc vc, resolve t v p = Some (tc, vc) /\ resolve tc vc r = Some (X, xv).
 Proof.
   induction p as [|st p IH]; intros r t v X xv H; [exists t, v; split; [reflexivity|exact H]|].
-  cbn [app] in H. destruct st as [i|i]; cbn [resolve] in *.
+  cbn [app] in H. destruct st as [i|i|]; cbn [resolve] in *.
   - destruct t as [| | | |ts|]; try discriminate. destruct v as [| | |vs|]; try discriminate.
     destruct (nth_error ts i); [|discriminate]. destruct (nth_error vs i); [|discriminate]. now apply IH.
   - destruct t as [| | |it k| |]; try discriminate. destruct v as [| |items| |]; try discriminate.
     destruct (nth_error items i); [|discriminate]. now apply IH.
+  - destruct t as [| | | | |rw vars]; try discriminate. destruct v as [| | | |d pv]; try discriminate.
+    destruct (find_variant d vars); [|discriminate]. now apply IH.
+Qed.
+
+Lemma resolve_app_eq : forall p r t v tc vc, resolve t v p = Some (tc, vc) -> resolve t v (p ++ r) = resolve tc vc r.
+Proof.
+  induction p as [|st p IH]; intros r t v tc vc H.
+  - cbn [resolve] in H. injection H as -> ->. reflexivity.
+  - cbn [app]. destruct st as [i|i|]; cbn [resolve] in *.
+    + destruct t as [| | | |ts|]; try discriminate. destruct v as [| | |vs|]; try discriminate.
+      destruct (nth_error ts i); [|discriminate]. destruct (nth_error vs i); [|discriminate]. now apply IH.
+    + destruct t as [| | |it k| |]; try discriminate. destruct v as [| |items| |]; try discriminate.
+      destruct (nth_error items i); [|discriminate]. now apply IH.
+    + destruct t as [| | | | |rw vars]; try discriminate. destruct v as [| | | |d pv]; try discriminate.
+      destruct (find_variant d vars); [|discriminate]. now apply IH.
 Qed.
 
 Lemma mpath_app p r : mpath (p ++ r) = mpath p ++ mpath r.
@@ -60,7 +77,7 @@ Proof.
   - destruct (resolve_app pre (st :: r) t v X xv Hres) as (tc & vc & Hpre & Hrest).
     pose proof R as [Hpl Hok Hwf [junk Hmem] Hlen HL Hc32].
     replace (pre ++ st :: r) with ((pre ++ [st]) ++ r) in * by (now rewrite <- app_assoc).
-    destruct st as [i|i]; cbn [menter resolve] in *.
+    destruct st as [i|i|]; cbn [menter resolve] in *.
     + destruct tc as [| | | |ts|]; try discriminate. destruct vc as [| | |vs|]; try discriminate.
       destruct (nth_error ts i) as [ti|] eqn:Et; [|discriminate]. destruct (nth_error vs i) as [vi|] eqn:Ev; [|discriminate].
       pose proof (LayP_extend_SF pre t v 0 top ts vs i ti vi Hwf Hpre Et Ev HL) as HL'.
@@ -76,6 +93,11 @@ Proof.
       destruct (ulist_enter_LayP ovf pre t true v s top it k items i kv junk Hpl Hok Hwf Hpre En HL Hmem) as (top1 & He & HL1).
       rewrite He. cbn [obind].
       destruct (IH (pre ++ [SE i]) t v s top1 X xv (repf_refocus _ _ _ _ _ _ _ R HL1) Hres) as (top' & Hm & R').
+      exists top'. rewrite mpath_app in Hm. split; [exact Hm|exact R'].
+    + destruct tc as [| | | | |rw vars]; try discriminate. destruct vc as [| | | |d pv]; try discriminate.
+      destruct (find_variant d vars) as [vt|] eqn:Ef; [|discriminate].
+      pose proof (LayP_extend_SV pre t v 0 top rw vars d pv vt Hwf Hpre Ef HL) as HL'.
+      destruct (IH (pre ++ [SV]) t v s top X xv (repf_refocus _ _ _ _ _ _ _ R HL') Hres) as (top' & Hm & R').
       exists top'. rewrite mpath_app in Hm. split; [exact Hm|exact R'].
 Qed.
 
